@@ -47,6 +47,11 @@ def run(tier, seed):
         ("valid4-offset1", 4, 1, "NoMutActs", 40, 4, 45, 40 * k),
         ("all7", 7, 0, "InstActs", 50, 3, 50, 30 * k),
         ("rc7", 7, 5, "RCOnly", 50, 4, 45, 30 * k),
+        # the round cut-off: timeouts only (no adversary budget), up to round 16 - the last round-change before the
+        # cut-off and the refusals after it must be the reference's (added after a seeded change was missed)
+        ("cutoff4", 4, 0, "NoMutActs", 0, 16, 20, 4),
+        # ... and with a few adversarial round-changes / proposals on the way up
+        ("cutoff4-env", 4, 1, "RCProp", 6, 16, 30, 8 * k),
     ]
     behs = []
     for (name, n, off, acts, budget, maxr, depth, count) in fams:
@@ -82,7 +87,7 @@ def run(tier, seed):
     binq = vlib.go_build("qbftdiff")
     inp = os.path.join(wd, "behaviours.ndjson")
     outp = os.path.join(wd, "result.json")
-    res, wall = vlib.run_driver_sharded(binq, behs, inp, outp, timeout=6000)
+    res, wall = vlib.run_driver_sharded(binq, behs, inp, outp, timeout=14000)
     log("[C06] stepped %d behaviours / %d steps through node, compacting node and reference instance in %.0fs: "
         "%d mismatches, %d divergences from the model" % (res["behaviours"], res["steps"], wall,
                                                         res["counters"].get("violations", 0), res["counters"].get("divergences", 0)))
